@@ -72,13 +72,13 @@ func vhNewBook() *AccountingBook {
 
 func vhHash(i int) [32]byte {
 	var h [32]byte
-	h[0], h[1] = byte(i+1), 0x11
+	h[0], h[1], h[2] = byte(i+1), 0x11, byte((i+1)>>8)
 	return h
 }
 
 func vhTrxHash(i int) [32]byte {
 	var h [32]byte
-	h[0], h[1] = byte(i+1), 0x77
+	h[0], h[1], h[2] = byte(i+1), 0x77, byte((i+1)>>8)
 	return h
 }
 
